@@ -29,7 +29,15 @@ type c10Val struct {
 	how   string
 }
 
+// c10Rel: a pair of values of one slice type in which b is DERIVED from a and may share its storage
+type c10Rel struct {
+	canonA, canonB string
+	goPair         string // Go function literal body returning (a, b)
+	how            string
+}
+
 type c10Type struct {
+	rels  []c10Rel
 	id    int
 	depth int
 	fo    string // Folang type expression
@@ -199,6 +207,39 @@ func c10Build(id int, k int, comps []*c10Type) *c10Type {
 				add([]c10Val{a, b})
 			}
 		}
+		// related pairs: b is derived from a by a function that may return a view of its argument (the same
+		// array, the same first element, a window inside it) - values that are different but physically close,
+		// and values that are equal but sit at different offsets of one array
+		{
+			y := ev[len(ev)-1]
+			bases := [][]c10Val{{x}, {x, y}, {x, x}, {x, y, x}, {x, x, x}}
+			for _, b := range bases {
+				n := len(b)
+				type der struct {
+					name string
+					expr string
+					lo   int
+					hi   int
+				}
+				ds := []der{{"the same value", "a", 0, n}, {"PopLast a", "slice.PopLast(a)", 0, n - 1}, {"Tail a", "slice.Tail(a)", 1, n}}
+				for k := 0; k <= n; k++ {
+					ds = append(ds, der{fmt.Sprintf("Take %d a", k), fmt.Sprintf("slice.Take(%d, a)", k), 0, k},
+						der{fmt.Sprintf("Skip %d a", k), fmt.Sprintf("slice.Skip(%d, a)", k), k, n})
+				}
+				if n >= 2 {
+					ds = append(ds, der{"PopLast (PopLast a)", "slice.PopLast(slice.PopLast(a))", 0, n - 2},
+						der{"Tail (PopLast a)", "slice.Tail(slice.PopLast(a))", 1, n - 1},
+						der{"PopLast (Tail a)", "slice.PopLast(slice.Tail(a))", 1, n - 1})
+				}
+				for _, d := range ds {
+					t.rels = append(t.rels, c10Rel{can(b...), can(b[d.lo:d.hi]...), "a := " + lit(b...) + "; return a, " + d.expr, d.name})
+				}
+				// two derived values of one base compared with each other: equal contents at different offsets
+				if n >= 2 {
+					t.rels = append(t.rels, c10Rel{can(b[:n-1]...), can(b[1:]...), "a := " + lit(b...) + "; return slice.PopLast(a), slice.Tail(a)", "PopLast a vs Tail a"})
+				}
+			}
+		}
 		// long literals over leaf elements (lengths 9 and 33; equal, differing in the last, in the first
 		// element): an equality that looks at a bounded prefix, samples, or switches strategy with the
 		// size is only visible beyond the exhaustive lengths 0..2
@@ -293,7 +334,7 @@ func checkC10(c *core.Ctx) {
 	if err != nil {
 		panic(err)
 	}
-	c.Set("rule", "types are enumerated by the choice-tree explorer (constructor x component types: pair, triple, record with upper-case fields, record with lower-case fields, union with payload and bare cases, generic union, slice) to the nesting depth; every type gets a small complete value domain, slices through every producer path (literal, slice.New, nil, Take, Skip, Tail, PopLast, Filter, Map, Append, PushLast, PushHead); all ordered pairs of values of one type are compared through the transpiled Folang functions `a = b` and `a <> b` and through frt.OpEqual directly; distinct = distinct (type, value expression); non-trivial = composite value")
+	c.Set("rule", "types are enumerated by the choice-tree explorer (constructor x component types: pair, triple, record with upper-case fields, record with lower-case fields, union with payload and bare cases, generic union, slice) to the nesting depth; every type gets a small complete value domain, slices through every producer path (literal, slice.New, nil, Take, Skip, Tail, PopLast, Filter, Map, Append, PushLast, PushHead); for every slice type also related pairs (a value and what PopLast / Tail / Take k / Skip k and two-step chains derive from it - views of the same storage - and two derived values of one base with equal contents at different offsets), both operand orders; all ordered pairs of values of one type are compared through the transpiled Folang functions `a = b` and `a <> b` and through frt.OpEqual directly; distinct = distinct (type, value expression); non-trivial = composite value")
 	c.Assumption("reference equality: two values are equal iff their canonical descriptions (structure and contents, independent of the producer) are equal")
 	depth := 2
 	if c.Thorough() {
@@ -365,10 +406,30 @@ func c10RunChunk(c *core.Ctx, sc *impl.Scratch, fc string, leaves, types []*c10T
 		for _, v := range t.vals {
 			fmt.Fprintf(&gov, "%q, ", v.how)
 		}
-		fmt.Fprintf(&gov, "}\n\t\tregister(&typ{id: %d, kind: %q, fo: %q, n: len(vals), canon: canon, how: how,\n", t.id, t.kind, t.fo)
+		gov.WriteString("}\n")
+		if len(t.rels) > 0 {
+			fmt.Fprintf(&gov, "\t\trelPairs := []func() (%s, %s){\n", t.gt, t.gt)
+			for _, r := range t.rels {
+				fmt.Fprintf(&gov, "\t\t\tfunc() (%s, %s) { %s },\n", t.gt, t.gt, r.goPair)
+			}
+			gov.WriteString("\t\t}\n\t\trelCanon := [][2]string{")
+			for _, r := range t.rels {
+				fmt.Fprintf(&gov, "{%q, %q}, ", r.canonA, r.canonB)
+			}
+			gov.WriteString("}\n\t\trelHow := []string{")
+			for _, r := range t.rels {
+				fmt.Fprintf(&gov, "%q, ", r.how)
+			}
+			gov.WriteString("}\n")
+		}
+		fmt.Fprintf(&gov, "\t\tregister(&typ{id: %d, kind: %q, fo: %q, n: len(vals), canon: canon, how: how,\n", t.id, t.kind, t.fo)
 		fmt.Fprintf(&gov, "\t\t\teq: func(i, j int) bool { return eq_%d(vals[i], vals[j]) },\n", t.id)
 		fmt.Fprintf(&gov, "\t\t\tne: func(i, j int) bool { return ne_%d(vals[i], vals[j]) },\n", t.id)
-		gov.WriteString("\t\t\tdirect: func(i, j int) bool { return frt.OpEqual(vals[i], vals[j]) },\n\t\t})\n\t}\n")
+		gov.WriteString("\t\t\tdirect: func(i, j int) bool { return frt.OpEqual(vals[i], vals[j]) },\n")
+		if len(t.rels) > 0 {
+			fmt.Fprintf(&gov, "\t\t\tnrel: len(relPairs), relCanon: relCanon, relHow: relHow,\n\t\t\trel: func(k, op int, swap bool) bool {\n\t\t\t\ta, b := relPairs[k]()\n\t\t\t\tif swap {\n\t\t\t\t\ta, b = b, a\n\t\t\t\t}\n\t\t\t\tswitch op {\n\t\t\t\tcase 0:\n\t\t\t\t\treturn eq_%d(a, b)\n\t\t\t\tcase 1:\n\t\t\t\t\treturn ne_%d(a, b)\n\t\t\t\t}\n\t\t\t\treturn frt.OpEqual(a, b)\n\t\t\t},\n", t.id, t.id)
+		}
+		gov.WriteString("\t\t})\n\t}\n")
 	}
 	gov.WriteString("}\n")
 	dir := sc.TempDir("c10_")
